@@ -203,6 +203,14 @@ Theorem C15_excess_decreases :
 Proof. exact excess_subst_lt. Qed.
 Print Assumptions C15_excess_decreases.
 
+(* the implementation's own sequence is checked to be admissible (every constraint used); such a
+   sequence cannot be longer than the total excess degree *)
+Theorem C15_admissible_length :
+  forall cs vars p,
+    wf vars p -> valid_cons vars cs = true -> admissible p cs = true -> (length cs <= excess p)%nat.
+Proof. exact admissible_length. Qed.
+Print Assumptions C15_admissible_length.
+
 (* admissible choices exist *)
 Theorem C15_first_pair_good : good_choice first_pair.
 Proof. exact first_pair_good. Qed.
